@@ -63,6 +63,40 @@ Theorem C14_newline_language :
       end.
 Proof. exact newline_lang. Qed.
 
+(* keyword(k): the MAXIMAL identifier at the position must be exactly k: neither k followed by further identifier
+   characters (k as a prefix of a longer identifier) nor a proper prefix of k matches *)
+Theorem C14_keyword_language :
+  forall K toks spn n fs fc kw ctx p a,
+    run_len toks fc (S p) < S (S n) ->
+    exists a',
+      sem K toks spn (S (S (S (S (S (S n)))))) (text_keyword (PFun fs) (PFun fc) kw) ctx p a =
+        match nth_error toks p with
+        | Some t =>
+            if fs t then
+              if list_eqN (t :: run_toks toks fc (S p)) kw
+              then Some (Some (VSlice p (S p + run_len toks fc (S p)), S p + run_len toks fc (S p), []), a')
+              else Some (None, a')
+            else Some (None, a')
+        | None => Some (None, a')
+        end.
+Proof. exact keyword_lang. Qed.
+
+(* padded(): exactly the maximal whitespace runs before and after are skipped, nothing else; the value, the emissions
+   and a failure are the padded parser's *)
+Theorem C14_padded_skips_surrounding_whitespace_only :
+  forall K toks spn n fws x ctx p a,
+    run_len toks fws p < S (S n) ->
+    exists a1,
+      match sem K toks spn (S (S (S n))) x ctx (p + run_len toks fws p) a1 with
+      | Some (Some (va, p2, e2), a2) =>
+          run_len toks fws p2 < S (S n) ->
+          exists a3, sem K toks spn (S (S (S (S n)))) (text_padded (PFun fws) x) ctx p a
+                     = Some (Some (va, p2 + run_len toks fws p2, e2), a3)
+      | Some (None, a2) => sem K toks spn (S (S (S (S n)))) (text_padded (PFun fws) x) ctx p a = Some (None, a2)
+      | None => sem K toks spn (S (S (S (S n)))) (text_padded (PFun fws) x) ctx p a = None
+      end.
+Proof. exact padded_lang. Qed.
+
 (* non-vacuity: int(10), keyword and newline on concrete inputs through the machine *)
 Example C14_example :
   let digit := PTokIn [48; 49; 50; 51; 52; 53; 54; 55; 56; 57]%N in
@@ -82,3 +116,5 @@ Print Assumptions C14_int_language.
 Print Assumptions C14_ident_language.
 Print Assumptions C14_whitespace_language.
 Print Assumptions C14_newline_language.
+Print Assumptions C14_keyword_language.
+Print Assumptions C14_padded_skips_surrounding_whitespace_only.
